@@ -1,0 +1,22 @@
+//go:build verif
+
+// Contracts for the deductive verifier in /verif (govc). Comment-only file.
+
+package runtime
+
+// shape of a TypeAddr as the caches need it (C14)
+//@ spec shapeTA(t) := (t.AddrShift == 0 || t.AddrShift == 5 || t.AddrShift == 6) && (t.AddrRange >> t.AddrShift) <= 2097152 && (t.AddrRange == t.MaxTypeAddr - t.BaseTypeAddr || t.BaseTypeAddr > t.MaxTypeAddr)
+
+//@ func AnalyzeTypeAddr$1()
+//@   props C14 C06
+//@   ensures typeAddr == old(typeAddr) || (typeAddr != nil && shapeTA(typeAddr))
+//@   assigns global typeAddr
+//@   loop 1: invariant 0 <= i
+
+//@ func AnalyzeTypeAddr() (r)
+//@   props C14
+//@   trusted sync.Once: runs the verified closure AnalyzeTypeAddr$1 at most once; typeAddr (nil in a fresh process) has no other writer
+//@   ensures r == nil || shapeTA(r)
+//@   assigns global typeAddr
+
+//@ writers[C14] typeAddr: AnalyzeTypeAddr$1
